@@ -4,7 +4,7 @@
 
    This file is not part of the coq_makefile project (it depends on a generated file): the check
    harness/props/c19.py compiles gen/SamplerGen.v and then this file with
-     coqc -Q theories VQ -Q props VQP -Q gen VQG genprops/C19_gen.v
+     coqc -Q theories VQ -Q props VQP -Q gen VQG -Q genprops VQGP genprops/C19_gen.v
    and counts every theorem below as a proof obligation.  A change of an operator overload in
    the Python source (swapped operands, a forgotten minus, a missing wrap) changes the generated
    term and breaks the corresponding theorem.  Each theorem is self-contained up to the lemmas of
